@@ -168,7 +168,7 @@ def run_proofs(timeout=1500):
                                'obligations': int(m.group(1)) if m else (int(f.group(2)) if f else 0), 'ok': bool(m)}
     res['ok'] = all(v['ok'] for v in res['modules'].values())
     res['wall_s'] = round(time.time() - t, 1)
-    res['theorems'] = 'for ANY universe closed under Parent and ANY well-formed tree: every Level-A operation keeps the tree well-formed (ApplyWF, C03) and changes only its frame (FramePrimitives, FrameComposites, FailUnchanged, C01); for ANY number and content of layers and ANY marker set the overlay view is well-formed (ViewWellFormedAlways), nothing is visible below an invisible path (NothingBelowInvisible), a successful remove_file/remove_dir hides the path whatever the lower layers hold (RemoveFileHides, RemoveDirHides) and a re-created directory starts empty (FreshAfterRecreate) - C03/C09/C10'
+    res['theorems'] = 'for ANY universe closed under Parent and ANY well-formed tree: every Level-A operation keeps the tree well-formed (ApplyWF, C03) and changes only its frame (FramePrimitives, FrameComposites, FailUnchanged, C01); for ANY number and content of layers and ANY marker set the overlay view is well-formed (ViewWellFormedAlways), nothing is visible below an invisible path (NothingBelowInvisible), a successful remove_file/remove_dir hides the path whatever the lower layers hold (RemoveFileHides, RemoveDirHides) a re-created directory starts empty (FreshAfterRecreate) and a re-created file holds exactly the newly written bytes (FreshFileAfterRecreate) - C03/C09/C10'
     if res['ok']:
         json.dump(res, open(cf, 'w'))
     return res
